@@ -332,6 +332,11 @@ impl C08 {
                 -f32::MIN_POSITIVE
             };
         }
+        // c +- 2^-k: values that only a Double can tell apart from the limit
+        for kk in 1..=44 {
+            vals.push(c + (0.5f64).powi(kk));
+            vals.push(c - (0.5f64).powi(kk));
+        }
         let mut d = c;
         for _ in 0..20 {
             vals.push(d);
